@@ -1,11 +1,13 @@
 import Dagrt.Driver.C06
 import Dagrt.Driver.Kinds
+import Dagrt.Driver.C10
 open Lean Dagrt.Driver
 
 def dispatch (j : Json) : R Json := do
   let op ← str? (← field j "op")
   match op.splitOn "." with
   | ["C06", o] => C06.handle o j
+  | ["C10", o] => C10.handle o j
   | ["C14", o] => Kinds.handle o j
   | ["C09", o] => Kinds.handle o j
   | _ => throw s!"unknown op {op}"
